@@ -464,6 +464,41 @@ def _alph(tier, seed):
             "realignment_shapes": len(realign_shapes(tier)), "realignment_dim_forms": ["2x2", "2x2_nd", "flat", "flat_nd", "int", "omitted"]}
 
 
+# ------------------------------------------------------------------------------------------------ C03.pt_many_subsystems
+# Same defect class as C02.many_subsystems (untouched subsystems taken in hash-table order from nine subsystems on): qubit systems with
+# 8..10 subsystems, oracle = numpy axis exchange on exact int64 labels.
+PT_MANY = {8: [[0, 2, 3, 4, 5, 7], [7, 5, 4, 3, 2, 0], [1]], 9: [[0, 2, 3, 4, 5, 6, 8], [1, 2, 3, 4, 6, 7, 8], [8, 1]],
+           10: [[0, 2, 3, 4, 5, 6, 7, 9], [1, 2, 3, 4, 5, 6, 7, 8], [9, 7, 6, 5, 4, 3, 2, 0], [8, 1]]}
+
+
+def pt_many_cases(tier, seed):
+    for n in (8, 9, 10):
+        for sys_ in PT_MANY[n]:
+            yield {"n": n, "sys": sys_}
+
+
+def pt_many_check(case):
+    from toqito.channels import partial_transpose
+
+    n, sys_ = case["n"], case["sys"]
+    dims = [2] * n
+    N = 2 ** n
+    idx = np.arange(N * N, dtype=np.int64).reshape(N, N)
+    X = (idx * 7919 + 13) % 1000003 + 1
+    T = X.reshape(dims + dims)
+    axes = list(range(2 * n))
+    for k in sys_:
+        axes[k], axes[n + k] = n + k, k
+    exp = np.transpose(T, axes).reshape(N, N)
+    got, exc = call(partial_transpose, X.copy(), list(sys_), list(dims))
+    if exc is not None:
+        return viol("partial_transpose raised on a many-qubit operator: " + exc_text(exc), site=PT + ":exception:many")
+    g = np.asarray(got)
+    if g.shape != exp.shape or not np.array_equal(g.astype(np.int64), exp):
+        return viol(f"partial transpose over {sys_} of {n} qubits does not exchange exactly those indices", site=PT + ":many_subsystems")
+    return ok(True)
+
+
 CLAUSES = [
     Clause("C03.pt_index", pt_index_cases, pt_index_check, alphabets=_alph, weight=0.003,
            doc="partial_transpose vs integer index oracle: square (dims with 1) and rectangular, all sys/dim forms, 5 labellings"),
@@ -477,6 +512,8 @@ CLAUSES = [
            doc="realignment vs index oracle on square and rectangular bipartite inputs, dim omitted / int / [d1,d2] / 2x2"),
     Clause("C03.realign_kron", realign_kron_cases, realign_kron_check,
            doc="R(A (x) B) = vec(A) vec(B)^T on prime-filled factors; Frobenius norm and entry multiset preserved"),
+    Clause("C03.pt_many_subsystems", pt_many_cases, pt_many_check, chunk=1, weight=2.0, probe=1,
+           doc="8..10 qubits: exactly the listed row/column indices exchanged, the others left in place and in order"),
 ]
 
 # every toqito call of this property is repeated with column-major copies of its array arguments (engine.call, layout twin)
